@@ -113,4 +113,42 @@ def feeDeltaOnSuccess (collector src : Addr) (declared : Coins) (is : List Incur
 def feeDeltaOnFailure (collector src : Addr) (base : Coins) (a : Addr) (d : Denom) : Int :=
   (if a = src then - Coins.amountOf base d else 0) + (if a = collector then Coins.amountOf base d else 0)
 
+/-! ### The configuration in force (reference)
+
+"The floor gas price" and "the configured recipient / basis-point split" of the property are
+those the chain was configured with: the params written at genesis, changed ONLY in what a passed
+governance proposal's messages name (x/msgfees/spec: `MsgUpdateNhashPerUsdMilProposalRequest`
+sets the usd rate, `MsgUpdateConversionFeeDenomProposalRequest` the conversion denom,
+`MsgAdd/Update/RemoveMsgFeeProposalRequest` one entry of the schedule).  No message sets the
+floor gas price.  Written without the keeper's existence checks and control flow: whether a
+proposal PASSED or FAILED is taken as observed. -/
+
+/-- The split a governance message asks for (spec "Msg Fees proposals": no recipient ⇒ everything
+to the fee collector; recipient without basis points ⇒ the default 50%). -/
+def govBips (recipient : Addr) (bips : Option Nat) : Nat :=
+  if recipient = "" then 0 else bips.getD 5000
+
+/-- What ONE governance message says it changes — and nothing else. -/
+def govSays (cfg : Cfg) : GovMsg → Cfg
+  | .rate n => { cfg with nhashPerUsdMil := n }
+  | .denom d => { cfg with convDenom := d }
+  | .add t f r b => { cfg with sched := (t, ⟨f, r, govBips r b⟩) :: cfg.sched.filter (·.1 ≠ t) }
+  | .upd t f r b => { cfg with sched := (t, ⟨f, r, govBips r b⟩) :: cfg.sched.filter (·.1 ≠ t) }
+  | .rm t => { cfg with sched := cfg.sched.filter (·.1 ≠ t) }
+
+/-- A proposal that passed did what all its messages say, in order; one that failed did nothing. -/
+def refProposal (cfg : Cfg) (p : List GovMsg) (passed : Bool) : Cfg :=
+  if passed then p.foldl govSays cfg else cfg
+
+/-- The configuration in force after a sequence of proposals whose fates were `passed`. -/
+def refGov (cfg : Cfg) : List (List GovMsg) → List Bool → Cfg
+  | [], _ => cfg
+  | p :: ps, [] => refGov (refProposal cfg p false) ps []
+  | p :: ps, b :: bs => refGov (refProposal cfg p b) ps bs
+
+/-- Two configurations charge alike: same params, same schedule lookup for every message type. -/
+def Cfg.same (a b : Cfg) : Prop :=
+  a.floor = b.floor ∧ a.convDenom = b.convDenom ∧ a.nhashPerUsdMil = b.nhashPerUsdMil ∧
+  a.collector = b.collector ∧ ∀ t, lookupFee a t = lookupFee b t
+
 end PvModel.Txfee
